@@ -297,4 +297,99 @@ theorem chan_roundtrip (caf : Bool) (m : List Nat) (h : findTag m ≠ 0) : readC
 
 example : findTag [2, 3] = 6619138 ∧ readChan false 2 (be4 6619138) = some [2, 3] ∧ findTag [3, 4] = 0 := by decide +kernel
 
+/-! ## AIFF markers -/
+
+theorem pascal_spec (name : List Byte) (hl : name.length ≤ 253) (hz : ∀ b ∈ name, b ≠ 0) :
+    ∃ (size : Nat) (body : List Byte), pascal name = size :: body ∧ size % 2 = 1 ∧ body.length = size ∧
+      1 + size = name.length + 1 + (if (name.length + 1) % 2 = 0 then 0 else 1) ∧ cstr body = name := by
+  unfold pascal
+  rcases Nat.mod_two_eq_zero_or_one name.length with he | ho
+  · have hne : ¬ name.length % 2 = 1 := by omega
+    have h1 : (name.length + 1) % 2 = 1 := by omega
+    refine ⟨name.length + 1, name ++ [0], ?_, h1, by simp, ?_, ?_⟩
+    · simp only [hne, if_false]
+      rw [Nat.min_eq_left (by omega)]
+      congr 1
+      have hz256 : zeros 256 = 0 :: zeros 255 := rfl
+      rw [hz256, show name ++ 0 :: zeros 255 = (name ++ [0]) ++ zeros 255 by simp]
+      exact take_front _ _ _ (by simp)
+    · simp [h1]; omega
+    · simpa using cstr_append_zero2 name [] hz
+  · have h0 : (name.length + 1) % 2 = 0 := by omega
+    refine ⟨name.length, name, ?_, ho, rfl, ?_, cstr_no_zero name hz⟩
+    · simp only [ho, if_true]
+      rw [Nat.min_eq_left (by omega)]
+      simp
+    · simp [h0]; omega
+
+theorem serMark_length (m : Mark) (h : m.ok) : (serMark m).length = 6 + markStringLength m := by
+  obtain ⟨_, _, hl, hz⟩ := h
+  obtain ⟨size, body, hp, _, hb, hsz, _⟩ := pascal_spec m.name hl hz
+  simp only [serMark, hp, List.length_append, be2_length, be4_length, List.length_cons, hb, markStringLength]; omega
+
+/-- one marker is read back as it was written, and the walk goes on behind it -/
+theorem parseMarks_mark (n : Nat) (m : Mark) (rest : List Byte) (h : m.ok) :
+    parseMarks (n + 1) (serMark m ++ rest) = m :: parseMarks n rest := by
+  obtain ⟨hid, hpos, hl, hz⟩ := h
+  obtain ⟨size, body, hp, hodd, hb, _, hcs⟩ := pascal_spec m.name hl hz
+  have hmod : m.id % 65536 = m.id := Nat.mod_eq_of_lt hid
+  simp only [serMark, hp, hmod, List.append_assoc, List.cons_append]
+  rw [parseMarks]
+  rw [if_neg (by simp; omega)]
+  have g6 : (be2 m.id ++ (be4 m.position ++ size :: (body ++ rest))).getD 6 0 = size := by
+    rw [show be2 m.id ++ (be4 m.position ++ size :: (body ++ rest)) = (be2 m.id ++ be4 m.position) ++ size :: (body ++ rest) by simp]
+    rw [List.getD_eq_getElem?_getD, List.getElem?_append_right (by simp)]
+    simp
+  have d7 : (be2 m.id ++ (be4 m.position ++ size :: (body ++ rest))).drop 7 = body ++ rest := by
+    rw [show be2 m.id ++ (be4 m.position ++ size :: (body ++ rest)) = (be2 m.id ++ be4 m.position ++ [size]) ++ (body ++ rest) by simp]
+    exact drop_front _ _ 7 (by simp)
+  have d7p : (be2 m.id ++ (be4 m.position ++ size :: (body ++ rest))).drop (7 + size) = rest := by
+    rw [← List.drop_drop, d7]; exact drop_front _ _ _ hb
+  simp only [g6, hodd, if_true, d7, d7p, take_front _ _ 2 (be2_length _), drop_front _ _ 2 (be2_length _), take_front _ _ 4 (be4_length _),
+    ofBE_be2 hid, ofBE_be4 hpos, take_front _ _ _ hb, hcs]
+  rw [List.take_of_length_le (by omega)]
+
+theorem parseMarks_all (ms : List Mark) (h : ∀ m ∈ ms, m.ok) : parseMarks ms.length (ms.flatMap serMark) = ms := by
+  induction ms with
+  | nil => simp [parseMarks]
+  | cons m t ih =>
+    simp only [List.length_cons, List.flatMap_cons]
+    rw [parseMarks_mark _ m _ (h m (by simp)), ih (fun m hm => h m (by simp [hm]))]
+
+theorem flatMap_serMark_length (ms : List Mark) (h : ∀ m ∈ ms, m.ok) :
+    (ms.flatMap serMark).length = ms.length * 6 + (ms.map markStringLength).sum := by
+  induction ms with
+  | nil => simp
+  | cons m t ih =>
+    simp only [List.flatMap_cons, List.length_append, serMark_length m (h m (by simp)), ih (fun m hm => h m (by simp [hm])), List.length_cons,
+      List.map_cons, List.sum_cons]; omega
+
+/-- AIFF markers: 16-bit id, position and name (at most 253 bytes, no NUL) survive, for up to 2500 markers -/
+theorem mark_roundtrip (ms : List Mark) (hn : ms.length ≤ 2500) (h : ∀ m ∈ ms, m.ok) : readMarks (writeMarks ms) = some ms := by
+  have hlen := flatMap_serMark_length ms h
+  have hsum : (ms.map markStringLength).sum ≤ 256 * ms.length := by
+    clear hlen
+    induction ms with
+    | nil => simp
+    | cons m t ih =>
+      have := (h m (by simp)).2.2.1
+      have := ih (by simp at hn; omega) (fun m hm => h m (by simp [hm]))
+      simp only [List.map_cons, List.sum_cons, List.length_cons, markStringLength]; split <;> omega
+  unfold readMarks writeMarks
+  simp only [List.append_assoc]
+  have e4 : (mk "MARK").length = 4 := by decide
+  rw [drop_front_add (mk "MARK") _ 4 0 e4, drop_front_add (mk "MARK") _ 4 4 e4]
+  simp only [List.drop_zero, take_front _ _ 4 (be4_length _), drop_front _ _ 4 (be4_length _), ofBE_be4 (show 2 + ms.length * 6 + (ms.map markStringLength).sum < 2 ^ 32 by omega)]
+  have htake : (be2 ms.length ++ ms.flatMap serMark).take (2 + ms.length * 6 + (ms.map markStringLength).sum) = be2 ms.length ++ ms.flatMap serMark :=
+    List.take_of_length_le (by simp only [List.length_append, be2_length, hlen]; omega)
+  rw [htake]
+  simp only [take_front _ _ 2 (be2_length _), drop_front _ _ 2 (be2_length _), ofBE_be2 (show ms.length < 2 ^ 16 by omega)]
+  rw [if_neg (by omega), parseMarks_all ms h]
+
+example : readMarks (writeMarks [⟨1, 10, ascii "one"⟩, ⟨7, 20, ascii "even"⟩, ⟨9, 30, []⟩]) = some [⟨1, 10, ascii "one"⟩, ⟨7, 20, ascii "even"⟩, ⟨9, 30, []⟩] := by
+  decide +kernel
+
+/-- the cue fields AIFF has no place for come back as 0 / 'data' (an assumption of the check, stated here as what the model does) -/
+example : cueOfMark (markOfCue ⟨70000, 5, 7, 8, 9, 44, ascii "n"⟩) = ⟨70000 % 65536, 0, 0x61746164, 0, 0, 44, ascii "n"⟩ := by decide
+
 end Sf.MetaX
